@@ -946,9 +946,11 @@ class PathLossFreeSpace(PathLossGeneral):
         value : float
             Central carrier frequency (in MHz).
         """
+        # Calculate the new C first: it raises for a non-positive frequency
+        # and then the object must be left unchanged
+        C = self._calculate_C_from_fc_and_n(value, self.n)
         self._fc = value
-        # If we change 'fc', we need to update the C variable
-        self._C = self._calculate_C_from_fc_and_n(self._fc, self.n)
+        self._C = C
 
     @staticmethod
     def _calculate_C_from_fc_and_n(fc: float, n: float) -> float:
